@@ -476,14 +476,14 @@ namespace {
       executeOnce(c, s, ntasks);
       return;
     }
-    if (failuresSeen[c.sub()] != 0 && (++shrinkExecutions[c.sub()] > 150 || hangsSeen >= 12)) {
+    if (failuresSeen[c.sub()] != 0 && (++shrinkExecutions[c.sub()] > 50 || hangsSeen >= 12)) {
       // bounded shrinking (every execution forks and may wait for the time
       // limit): the last recorded failing script is kept
       return;
     }
     // shrinking selects among many candidates: a stricter confirmation keeps
     // it from drifting to scripts that fail only often
-    const int needed = failuresSeen[c.sub()] != 0 ? 10 : 4;
+    const int needed = failuresSeen[c.sub()] != 0 ? 6 : 4;
     for (int attempt = 0;; ++attempt) {
       try {
         executeOnce(c, s, ntasks);
